@@ -320,6 +320,7 @@ int provide(struct urequest *r, const char *who);
 
 void pd_react(const char *pipe, const char *event);
 
+__attribute__((weak)) bool pd_need_output(struct obj *self, struct upipe *upipe);
 static int probe_catch(struct uprobe *uprobe, struct upipe *upipe, int event, va_list args)
 {
     /* the probe is embedded in the object it was given to */
@@ -376,6 +377,9 @@ static int probe_catch(struct uprobe *uprobe, struct upipe *upipe, int event, va
     if (event == UPROBE_READY) {
         return UBASE_ERR_NONE;
     }
+    /* an extension may answer need_output (e.g. by replacing the output) */
+    if (event == UPROBE_NEED_OUTPUT && upipe == self->ptr && pd_need_output && pd_need_output(self, upipe))
+        return UBASE_ERR_NONE;
     if (event == UPROBE_NEED_UPUMP_MGR || event == UPROBE_NEED_SOURCE_MGR ||
         event == UPROBE_NEED_OUTPUT)
         return UBASE_ERR_UNHANDLED;
